@@ -494,12 +494,24 @@ impl Mp4Track {
             let first_sample_in_chunk = sample_id - (sample_id - first_sample) % samples_per_chunk;
 
             let mut sample_offset = chunk_offset;
-            for i in first_sample_in_chunk..sample_id {
-                sample_offset = sample_offset
-                    .checked_add(self.sample_size(i)? as u64)
+            let stsz = &self.trak.mdia.minf.stbl.stsz;
+            if stsz.sample_size > 0 {
+                // Constant sample size: no need to walk the (file-controlled) number of
+                // samples in the chunk.
+                sample_offset = ((sample_id - first_sample_in_chunk) as u64)
+                    .checked_mul(stsz.sample_size as u64)
+                    .and_then(|n| n.checked_add(chunk_offset))
                     .ok_or(Error::InvalidData(
                         "attempt to calculate stbl sample offset with overflow",
                     ))?;
+            } else {
+                for i in first_sample_in_chunk..sample_id {
+                    sample_offset = sample_offset
+                        .checked_add(self.sample_size(i)? as u64)
+                        .ok_or(Error::InvalidData(
+                            "attempt to calculate stbl sample offset with overflow",
+                        ))?;
+                }
             }
 
             Ok(sample_offset)
